@@ -1,7 +1,9 @@
 package main
 
 import (
+	"bytes"
 	"encoding/json"
+	"os/exec"
 	"flag"
 	"fmt"
 	"os"
@@ -20,7 +22,7 @@ type PropSpec struct {
 	Sweep       []string `json:"sweep,omitempty"`     // functions swept for panics (no contract needed)
 	Lemmas      []string `json:"lemmas,omitempty"`    // spec-level lemmas (by name)
 	Lean        []string `json:"lean,omitempty"`      // lean files under /verif/lemmas
-	Bounded     []string `json:"bounded,omitempty"`   // bounded stand-ins (names of harnesses)
+	Bounded     []BoundedSpec `json:"bounded,omitempty"` // bounded stand-ins (dynamic checks of a contract over a stated finite domain)
 	Assumptions []string `json:"assumptions"`         // stated, unchecked
 	NotDecided  []string `json:"not_decided"`         // clauses of the property this check does not decide
 	Unclaimed   []string `json:"unclaimed,omitempty"` // obligation names generated but not claimed (with reason after ' -- ')
@@ -28,6 +30,14 @@ type PropSpec struct {
 		Timeout int `json:"timeout,omitempty"`
 	} `json:"thorough,omitempty"`
 	QuickTimeout int `json:"quick_timeout,omitempty"`
+}
+
+type BoundedSpec struct {
+	Name string `json:"name"`
+	Pkg  string `json:"pkg"`  // package directory under /repo
+	File string `json:"file"` // test source under /verif/bounded
+	Test string `json:"test"` // test function
+	What string `json:"what"` // which contract clause it stands in for and why
 }
 
 type KnownFinding struct {
@@ -214,11 +224,25 @@ func cmdCheck(args []string) int {
 			obls = append(obls, ob)
 		}
 	}
-	results := p.discharge(obls, func(o *Obligation) []string { return usesOf[o] }, outDir, quickSecs, fullSecs, 8)
+	// unclaimed obligations are listed in the evidence but not sent to the solvers
+	var unclaimedSeen []string
+	{
+		kept := obls[:0:0]
+		for _, ob := range obls {
+			if _, un := unclaimed[ob.Name]; un && !ob.MustFail {
+				unclaimedSeen = append(unclaimedSeen, ob.Name)
+				continue
+			}
+			kept = append(kept, ob)
+		}
+		obls = kept
+	}
+	results := p.discharge(obls, func(o *Obligation) []string { return usesOf[o] }, outDir, quickSecs, fullSecs, 6)
 
 	var evs []obEvidence
 	nObl, nDis, nCanary, nKnown, nUnclaimed := 0, 0, 0, 0, 0
 	var knownNames, unclaimedNames []string
+	unclaimedNames = append(unclaimedNames, unclaimedSeen...)
 	solverSecs := 0.0
 	backends := map[string]int{}
 	for _, r := range results {
@@ -260,6 +284,19 @@ func cmdCheck(args []string) int {
 			lines = append(lines, fmt.Sprintf("VIOLATION property=%s replay=%s no-failing-input-found", id, f))
 		}
 	}
+	// bounded stand-ins: run on the real code, never counted as proved
+	var boundedEv []map[string]interface{}
+	for _, b := range spec.Bounded {
+		res, ok := runBounded(repo, verif, b, seed)
+		res["stands_in_for"] = b.What
+		boundedEv = append(boundedEv, res)
+		if !ok {
+			violations++
+			f := filepath.Join(replayDir, fmt.Sprintf("%s_bounded_%s.json", id, safeFile(b.Name)))
+			writeJSON(f, res)
+			lines = append(lines, fmt.Sprintf("VIOLATION property=%s replay=%s", id, f))
+		}
+	}
 	// a listed known finding that no longer fails is reported (not an error)
 	for _, kf := range known {
 		if kf.Property == id && kf.Status == "known" {
@@ -290,6 +327,7 @@ func cmdCheck(args []string) int {
 		"solver_seconds":            round3(solverSecs),
 		"per_obligation":            evs,
 		"havoc_abstractions":        keys(havocked),
+		"bounded":                   boundedEv,
 	}
 	_ = nKnown
 	_ = nUnclaimed
@@ -336,7 +374,6 @@ func writeEvidence(verif, id, tier string, seed int, cov map[string]interface{},
 	cov["samples"] = samples
 	if spec != nil {
 		cov["not_decided"] = spec.NotDecided
-		cov["bounded"] = spec.Bounded
 	}
 	// generic counters required by the schema fallback
 	cov["evaluations"] = len(results) + 1
@@ -426,4 +463,42 @@ func (p *Prog) lemmaObligations(name string) ([]*Obligation, error) {
 		}
 	}
 	return nil, fmt.Errorf("lemma %s not found", name)
+}
+
+// runBounded injects a test from /verif/bounded into the package with -overlay and runs it.
+func runBounded(repo, verif string, b BoundedSpec, seed int) (map[string]interface{}, bool) {
+	res := map[string]interface{}{"name": b.Name, "label": "bounded (not a proof)"}
+	src := filepath.Join(verif, "bounded", b.File)
+	pkgDir := filepath.Join(repo, b.Pkg)
+	tmp, _ := os.MkdirTemp("", "gvc-bounded-")
+	defer os.RemoveAll(tmp)
+	ov := map[string]map[string]string{"Replace": {filepath.Join(pkgDir, "zz_gvc_bounded_test.go"): src}}
+	ob, _ := json.Marshal(ov)
+	ovf := filepath.Join(tmp, "ov.json")
+	os.WriteFile(ovf, ob, 0o644)
+	cmd := exec.Command("go", "test", "-overlay", ovf, "-vet=off", "-count=1", "-timeout", "600s", "-v", "-run", "^"+b.Test+"$", ".")
+	cmd.Dir = pkgDir
+	cmd.Env = append(os.Environ(), "GOFLAGS=-mod=mod", "GOPROXY=off", "GOSUMDB=off", "GOTOOLCHAIN=local", fmt.Sprintf("VERIF_SEED=%d", seed))
+	var buf bytes.Buffer
+	cmd.Stdout = &buf
+	cmd.Stderr = &buf
+	err := cmd.Run()
+	o := buf.String()
+	idx := strings.Index(o, "GVCBOUNDED ")
+	if idx < 0 {
+		res["error"] = truncate(o, 2000)
+		return res, false
+	}
+	line := o[idx+len("GVCBOUNDED "):]
+	if nl := strings.Index(line, "\n"); nl >= 0 {
+		line = line[:nl]
+	}
+	var m map[string]interface{}
+	if json.Unmarshal([]byte(line), &m) == nil {
+		for k, v := range m {
+			res[k] = v
+		}
+	}
+	f, _ := res["failures"].(float64)
+	return res, err == nil && f == 0
 }
